@@ -11,6 +11,7 @@ from bacpypes.pdu import Address
 from bv.engine import vclock
 from bv.engine.ctlnet import Wire, CtlNetwork
 from bv.engine.canon import canon
+from bv.engine.acc import h64
 from bv.refs import ssmwire
 from bv.stacks import app as A
 
@@ -108,6 +109,7 @@ class AppSystem(object):
         self.submitted = []     # (service number, request)
         self.steps = 0
         self.trace = []         # labels of the choices taken
+        self.faults = []        # (fault kind, class of the frame(s) hit) for failure signatures
         self.errors = []        # exceptions escaping into the driver (mirrors of what core.run would log)
 
     def _hook_records(self):
@@ -169,12 +171,23 @@ class AppSystem(object):
         self.trace.append(label)
         w = self.wire
         if label.startswith("deliver"):
-            fr = w.deliver(int(label[7:]))
+            j = int(label[7:])
+            fr = w.inflight[j]
+            if j:
+                self.faults.append(("overtake", frame_label(fr.data), frame_label(w.inflight[0].data)))
+            self.events.append(("dlv", vclock.clock.now, str(fr.dst), str(fr.src), fr.data))
+            w.deliver(j)
         elif label == "drop0":
             fr = w.drop(0)
+            self.faults.append(("drop", frame_label(fr.data)))
         elif label == "dup0":
-            fr = w.deliver(0, keep=True)
+            fr = w.inflight[0]
+            self.faults.append(("dup", frame_label(fr.data)))
+            self.events.append(("dlv", vclock.clock.now, str(fr.dst), str(fr.src), fr.data))
+            w.deliver(0, keep=True)
         elif label == "timer":
+            if w.inflight:
+                self.faults.append(("late",) + tuple(frame_label(f.data) for f in w.inflight[:3]))
             nd = vclock.next_due()
             if nd is not None and nd > vclock.clock.now:
                 vclock.clock.now = nd
@@ -262,7 +275,7 @@ def run_execution(cfg, choices, max_steps=400, want_states=None):
             points.append((m, idx))
             sysm.apply(m[idx][0])
             if want_states is not None:
-                want_states.add(sysm.canon_state())
+                want_states.add(h64(sysm.canon_state()))
             i += 1
             if i >= max_steps:
                 sysm.horizon_hit = True
